@@ -235,7 +235,7 @@ Proof.
       inversion Hstep; subst; simpl; rewrite app_nil_r; split; auto; split; auto.
   - (* create index *)
     destruct cols; [inversion Hstep; subst; simpl; rewrite app_nil_r; split; auto|].
-    destruct (negb _ || _ || _ || _);
+    destruct (negb _ || _ || _ || _ || _);
       inversion Hstep; subst; simpl; rewrite app_nil_r; split; auto; split; auto.
   - (* delete index *)
     destruct (existsb (index_eqb cols) (s_indexes (st_sch st)));
@@ -328,7 +328,7 @@ Proof.
   - destruct (col_exists (st_sch st) name || bytes_eqb name doc_blob); simpl; auto. discriminate.
   - destruct (find_field (st_sch st) name); simpl; auto.
     destruct (existsb _ (s_indexes (st_sch st))); simpl; auto. discriminate.
-  - destruct cols; simpl; auto. destruct (negb _ || _ || _ || _); simpl; auto. discriminate.
+  - destruct cols; simpl; auto. destruct (negb _ || _ || _ || _ || _); simpl; auto. discriminate.
   - destruct (existsb (index_eqb cols) (s_indexes (st_sch st))); simpl; auto. discriminate.
   - destruct (engine_matched st q); simpl; auto.
   - destruct (engine_matched st q); simpl; auto.
